@@ -93,12 +93,19 @@ func vxH_C19_alloc() {
 		vxAssert("newbatch-ok", err == nil)
 		return c, b
 	}
+	// mixed: a plain Set that outgrows the capacity hint sits between the
+	// Alloc of the first entry and its AllocSet/AllocDel/AllocMerge
+	mixed := vxChoose(2) == 1
+	extraK, extraV := []byte{'z', 'z'}, []byte{'Z'}
 	c1, b1 := mk()
+	if mixed {
+		vxAssert("batch-op-ok", b1.Set(extraK, extraV) == nil)
+	}
 	vxFillBatch(b1, ents)
 	c2, b2 := mk()
 	used := 0
 	separate := vxChoose(2) == 1
-	for _, e := range ents {
+	for i, e := range ents {
 		kb, vb := vxKeyBytes(e.k), vxValBytes(e.v)
 		used += len(kb) + len(vb)
 		var ak, av []byte
@@ -119,6 +126,9 @@ func vxH_C19_alloc() {
 			copy(buf[len(kb):], vb)
 			ak, av = buf[:len(kb)], buf[len(kb):]
 		}
+		if mixed && i == 0 {
+			vxAssert("batch-op-ok", b2.Set(extraK, extraV) == nil)
+		}
 		if e.op == OperationSet {
 			err = b2.AllocSet(ak, av)
 		} else if e.op == OperationDel {
@@ -127,9 +137,21 @@ func vxH_C19_alloc() {
 			err = b2.AllocMerge(ak, av)
 		}
 		vxAssert("alloc-op-ok", err == nil)
+		if mixed && i == 0 && n > 1 {
+			break // the buffer has been replaced; one entry is enough here
+		}
 	}
-	_, aerr := b2.Alloc(n*(kl+vl) - used + 1)
-	vxAssert("alloc-beyond-capacity-rejected", aerr == ErrAllocTooLarge)
+	if mixed && n > 1 {
+		// the reference batch must hold the same operations
+		c1, b1 = mk()
+		vxAssert("batch-op-ok", b1.Set(extraK, extraV) == nil)
+		vxFillBatch(b1, ents[:1])
+		ents = ents[:1]
+	}
+	if !mixed {
+		_, aerr := b2.Alloc(n*(kl+vl) - used + 1)
+		vxAssert("alloc-beyond-capacity-rejected", aerr == ErrAllocTooLarge)
+	}
 	vxAssert("exec1-ok", c1.ExecuteBatch(b1, WriteOptions{}) == nil)
 	vxAssert("exec2-ok", c2.ExecuteBatch(b2, WriteOptions{}) == nil)
 	K := vxNewKey(kl)
@@ -143,6 +165,11 @@ func vxH_C19_alloc() {
 	vxObserveBytes("alloc", g2)
 	vxAssert("alloc-batch-reads-like-plain-batch", (g1 == nil) == (g2 == nil) && vxBytesEq(g1, g2))
 	vxAssert("plain-batch-matches-fold", vxFoldIs(g1, vxRefFold(K, ents)))
+	if mixed {
+		x1, xe1 := s1.Get(extraK, ReadOptions{})
+		x2, xe2 := s2.Get(extraK, ReadOptions{})
+		vxAssert("plain-op-next-to-alloc-ops-reads-back", xe1 == nil && xe2 == nil && vxBytesEq(x1, extraV) && vxBytesEq(x2, extraV))
+	}
 	s1.Close()
 	s2.Close()
 }
